@@ -26,7 +26,7 @@ def gen_put(rng, nargs=None, allow_dots=True, allow_missing=True, allow_mount=Tr
         args.append({'arg': sp, 'kind': v['kind'], 'entry': v['path'], 'expect': 'trash'})
     r = rng.random()
     if allow_missing and r < 0.25:
-        args.insert(rng.randint(0, len(args)), {'arg': rng.choice(['/nonexistent', 'missing', lay.home + '/nope/x']), 'kind': 'missing', 'entry': None, 'expect': 'missing'})
+        args.insert(rng.randint(0, len(args)), {'arg': rng.choice(['/nonexistent', 'missing', lay.home + '/nope/x', '', '']), 'kind': 'missing', 'entry': None, 'expect': 'missing'})
     if allow_dots and rng.random() < 0.2:
         d = rng.choice(['.', '..', './', '../', './.', cwd + '/.', cwd + '/..', './/', '..//'])
         args.insert(rng.randint(0, len(args)), {'arg': d, 'kind': 'dot', 'entry': None, 'expect': 'refuse'})
